@@ -120,3 +120,15 @@ pub fn factory_tight(vocab: &Vocab) -> ParserFactory {
     }
     factory_ext(vocab, &[], InferenceCapabilities::default(), Some(l)).expect("factory")
 }
+
+/// Two known internal panics of grammars with hidden `stop=` lexemes (see known_findings.json);
+/// returns the finding's key suffix for an engine error message.
+pub fn hidden_stop_panic(err: &str) -> Option<&'static str> {
+    if err.contains("assertion failed: bt == 0") {
+        Some("forced-byte-completes-hidden-stop-panics")
+    } else if err.contains("panic: num_rows=") && err.contains("row_infos=") {
+        Some("hidden-stop-overlapping-committed-bytes-panics")
+    } else {
+        None
+    }
+}
